@@ -94,8 +94,8 @@ func dumpMain(_ json.RawMessage) int {
 // ---- the case ---------------------------------------------------------------------------------------------------------
 
 type Case struct {
-	ProgA   string `json:"prog_a"`  // "" = no previous state file
-	ProgB   string `json:"prog_b"`  // evaluated in a session that auto-loaded A
+	ProgA   string `json:"prog_a"`   // "" = no previous state file
+	ProgB   string `json:"prog_b"`   // evaluated in a session that auto-loaded A
 	CrashAt string `json:"crash_at"` // "<point>:<n>" or "" ; or
 	Fsize   int64  `json:"fsize"`    // >= 0: write failure injected after this many bytes (with CrashAt == "")
 }
@@ -220,6 +220,7 @@ func runFault(dirA string, rf refs, c Case) (killed bool, err error) {
 		return killed, fmt.Errorf("%s (the new file needs %d bytes): the previous ./.gr was replaced", what, len(rf.bytesB))
 	}
 	pbt.LabelN("leftover-tmp-files", int64(leftovers(dir)))
+
 	// what the next session restores
 	if has {
 		d, derr := dump(dir)
@@ -233,7 +234,40 @@ func runFault(dirA string, rf refs, c Case) (killed bool, err error) {
 			return killed, fmt.Errorf("%s: the next session restores neither the previous nor the new state:\n%s", what, trunc([]byte(d.Globals)))
 		}
 	}
+	if leftovers(dir) > 0 {
+		// What an interrupted save left behind must not leak into a later, complete save: the same follow-up
+		// session gives the same ./.gr here as in a directory holding nothing but the same ./.gr.
+		if ferr := followUp(dir, got, has, what); ferr != nil {
+			return killed, ferr
+		}
+	}
 	return killed, nil
+}
+
+const followUpProgram = "zzfollow = 1"
+
+func followUp(dir string, gr []byte, has bool, what string) error {
+	clean, err := os.MkdirTemp("", "verif-c18-clean-")
+	if err != nil {
+		return fmt.Errorf("harness: %v", err)
+	}
+	defer os.RemoveAll(clean)
+	if has {
+		_ = os.WriteFile(filepath.Join(clean, ".gr"), gr, 0o644)
+	}
+	for _, d := range []string{dir, clean} {
+		r := spawnIn(d, "c18-session", SessionArgs{Program: followUpProgram, AutoLoad: true, AutoSave: true}, nil, -1)
+		if r.Err != nil || r.Exit != 0 {
+			return fmt.Errorf("harness: follow-up session: %s %s", r, r.Stderr)
+		}
+	}
+	a, hasA := readGr(dir)
+	b, hasB := readGr(clean)
+	pbt.Label("follow-up-save-after-leftover")
+	if hasA != hasB || !bytes.Equal(a, b) {
+		return fmt.Errorf("%s, then a later complete save in the same directory: ./.gr has %d bytes, in a clean directory the same session writes %d bytes:\n%q\nclean:\n%q", what, len(a), len(b), trunc(a), trunc(b))
+	}
+	return nil
 }
 
 func trunc(b []byte) []byte {
